@@ -51,11 +51,12 @@ type RelState struct {
 	NextMember    int
 	AcceptedVotes map[string]int64 // vote signature hex -> height accepted (C02)
 	RegTruth      map[string]*regTruth
+	EverProposer  map[string]bool // addresses that have been the proposer (they own an account: they signed transactions)
 }
 
 func (w *World) rel() *RelState {
 	if w.R == nil {
-		w.R = &RelState{ByAddr: map[string]*RelMember{}, Truth: map[string]*VoteTruth{}, TruthMulti: map[string][]*VoteTruth{}, Labels: map[string]*SentTx{}, AcceptedVotes: map[string]int64{}, RegTruth: map[string]*regTruth{}}
+		w.R = &RelState{ByAddr: map[string]*RelMember{}, Truth: map[string]*VoteTruth{}, TruthMulti: map[string][]*VoteTruth{}, Labels: map[string]*SentTx{}, AcceptedVotes: map[string]int64{}, RegTruth: map[string]*regTruth{}, EverProposer: map[string]bool{}}
 		for _, m := range w.Members {
 			w.R.ByAddr[m.Addr()] = m
 		}
